@@ -16,11 +16,17 @@ package main
 //     reference denotes (through its address space), in increasing order;
 //   - whatever ReadAt reports as read (n bytes) has to be those bytes, n never
 //     exceeds the buffer;
-//   - a read of exactly one present register (TXT) / of exactly a run of
-//     registers (AMD) has to deliver; a reference made of whole present
-//     registers has to have bytes.  Reads that cut a register (a prefix, a
-//     start in the middle) are register-granular business of the artifact:
-//     judged only for WHAT they deliver, not for WHETHER they deliver.
+//   - positional-read contract: n < len(p) comes with an error (a nil error
+//     means the whole buffer was filled), so a read across a gap never succeeds;
+//   - a read of exactly a run of present registers without gaps (one register
+//     included) has to deliver, for TXT and AMD alike; a reference made of whole
+//     present registers has to have bytes -- neighbours named by one reference
+//     and the 256-bit TXT.PUBLIC.KEY included (the two former findings
+//     C11-TXTPublic-neighbouring-registers-one-reference and
+//     C11-TXTPublic-public-key-unreadable, repaired by /repo 9b9036f: their
+//     return is an ordinary failure with the input).  Reads that cut a register
+//     (a prefix, a start in the middle) are register-granular business of the
+//     artifact: judged only for WHAT they deliver, not for WHETHER they deliver.
 
 import (
 	"bytes"
@@ -40,9 +46,6 @@ import (
 const (
 	siteTXT = "pkg/bootflow/systemartifacts/txtpublic/txt_public.go:TXTPublic.ReadAt"
 	siteAMD = "pkg/bootflow/systemartifacts/amdregisters/amd_registers.go:AMDRegisters.ReadAt"
-	// known findings (open entries of KNOWN_FINDINGS.json)
-	fAdjacent = "C11-TXTPublic-neighbouring-registers-one-reference"
-	fWideReg  = "C11-TXTPublic-public-key-unreadable"
 )
 
 // synReg is a register of the harness' own: any address, any width.  val is
@@ -62,11 +65,10 @@ func (r synReg) Value() interface{}         { return r.val }
 
 // what the oracle knows about one register of a file
 type oreg struct {
-	off   int64 // where it lives in the space
-	val   []byte
-	bits  uint8
-	id    string
-	quirk bool // the declared bit size disagrees with the width of the value (C04-TXTPublicKey-bitsize-wraps-to-0)
+	off  int64 // where it lives in the space
+	val  []byte
+	bits uint8
+	id   string
 }
 
 type hregfile struct {
@@ -106,7 +108,7 @@ func newRegfile(amd bool, regs registers.Registers) *hregfile {
 	cur := int64(0)
 	for _, r := range regs {
 		v := leBytes(r.Value())
-		o := oreg{val: v, bits: r.BitSize(), id: string(r.ID()), quirk: int(r.BitSize())/8 != len(v)}
+		o := oreg{val: v, bits: r.BitSize(), id: string(r.ID())}
 		if amd {
 			o.off = cur
 			cur += int64(len(v))
@@ -456,11 +458,7 @@ func (g *gen) regReadList(a *hart, reqs []rdReq) {
 	}
 	var lits []string
 	var reads []map[string]interface{}
-	type verdict struct {
-		what  string
-		known string
-	}
-	var vs []verdict
+	var vs []string
 	for k, rq := range reqs {
 		off, plen := rq.off, rq.plen
 		p := bytes.Repeat([]byte{0xEE}, plen)
@@ -475,7 +473,7 @@ func (g *gen) regReadList(a *hart, reqs []rdReq) {
 		lits = append(lits, fmt.Sprintf("(%s, %s, %s)", gal.Bytes(orig), gal.Z(off), obs))
 		reads = append(reads, map[string]interface{}{"len_p": plen, "off": off, "n": nn, "err": fmt.Sprint(err), "panicked": panicked})
 		fail := func(f string, x ...interface{}) {
-			vs = append(vs, verdict{what: fmt.Sprintf("ReadAt #%d (%d bytes at %#x) on the same object: ", k+1, plen, off) + fmt.Sprintf(f, x...)})
+			vs = append(vs, fmt.Sprintf("ReadAt #%d (%d bytes at %#x) on the same object: ", k+1, plen, off)+fmt.Sprintf(f, x...))
 		}
 		switch {
 		case panicked:
@@ -483,6 +481,9 @@ func (g *gen) regReadList(a *hart, reqs []rdReq) {
 			continue
 		case nn < 0 || nn > plen:
 			fail("reports n=%d for a buffer of %d bytes", nn, plen)
+			continue
+		case nn < plen && err == nil:
+			fail("reports n=%d of %d bytes and no error (a short read has to explain itself)", nn, plen)
 			continue
 		}
 		bad := false
@@ -501,13 +502,9 @@ func (g *gen) regReadList(a *hart, reqs []rdReq) {
 		if bad {
 			continue
 		}
-		// has to deliver: exactly one present register (TXT) / exactly a run of registers (AMD)
-		if must, quirk := f.mustDeliver(off, plen); must && (nn != plen || err != nil) {
-			v := verdict{what: fmt.Sprintf("ReadAt #%d (%d bytes at %#x) on the same object: returned n=%d, err=%v for a read of exactly the register(s) at that address", k+1, plen, off, nn, err)}
-			if quirk {
-				v.known = fWideReg
-			}
-			vs = append(vs, v)
+		// has to deliver: exactly a run of present registers without gaps
+		if f.mustDeliver(off, plen) && (nn != plen || err != nil) {
+			fail("returned n=%d, err=%v for a read of exactly the register(s) at that address", nn, err)
 		}
 	}
 	kind := "readat_txtpublic"
@@ -520,55 +517,40 @@ func (g *gen) regReadList(a *hart, reqs []rdReq) {
 		c.OracleOK()
 		return
 	}
-	seen := map[string]bool{}
-	for _, v := range vs {
-		if v.known != "" {
-			if !seen[v.known] {
-				seen[v.known] = true
-				c.OracleFailKnown(idx, v.known, v.what, site, d)
-			}
-			continue
-		}
-		c.OracleFail(idx, v.what, site, d)
-		return
-	}
+	c.OracleFail(idx, vs[0], site, d)
 }
 
-// a read of plen > 0 bytes at off is exactly one register (TXT) / exactly a run
-// of registers laid out back to back (AMD), every byte unambiguous
-func (f *hregfile) mustDeliver(off int64, plen int) (must, quirk bool) {
+// a read of plen > 0 bytes at off is exactly a run of registers laid out back to
+// back (one register included), every byte unambiguous
+func (f *hregfile) mustDeliver(off int64, plen int) bool {
 	if plen <= 0 {
-		return false, false
+		return false
 	}
 	for i := 0; i < plen; i++ {
 		if _, backed, amb := f.byteAt(off + int64(i)); !backed || amb {
-			return false, false
+			return false
+		}
+	}
+	for _, r := range f.view {
+		if r.off < 0 {
+			return false // a register that does not belong into the space: the file is malformed
 		}
 	}
 	end := off
-	for _, r := range f.view {
-		if r.off < 0 {
-			return false, false // a register that does not belong into the space: the file is malformed
-		}
-	}
 	for end < off+int64(plen) {
 		found := false
 		for _, r := range f.view {
 			if r.off == end && len(r.val) > 0 {
 				end += int64(len(r.val))
-				quirk = quirk || r.quirk
 				found = true
 				break
 			}
 		}
 		if !found {
-			return false, false
-		}
-		if !f.amd {
-			break
+			return false
 		}
 	}
-	return end == off+int64(plen), quirk
+	return end == off+int64(plen)
 }
 
 // ---------- bytes of references over register files ----------
@@ -578,7 +560,7 @@ type regExpect struct {
 	ok      bool   // every denoted offset is backed by a register
 	abstain bool   // ambiguous space, refusing mapper, offsets beyond int64
 	must    bool   // made of whole present registers, read through a non-splitting address space
-	known   string // the open finding a refusal falls under although must holds
+	known   string // an open finding a refusal falls under although must holds (none at present)
 }
 
 func expectRegBytes(r href) regExpect {
@@ -633,7 +615,6 @@ func expectRegBytes(r href) regExpect {
 	}
 	// whole registers only?
 	whole := true
-	var covered []oreg
 	for _, x := range f.view {
 		in := 0
 		for i := 0; i < len(x.val); i++ {
@@ -644,33 +625,11 @@ func expectRegBytes(r href) regExpect {
 		if in != 0 && in != len(x.val) {
 			whole = false
 		}
-		if in != 0 {
-			covered = append(covered, x)
-		}
 	}
 	if v, isV := r.mapper.(vMapper); isV && v.Split {
 		whole = false // the address space cuts the ranges in two
 	}
 	e.must = whole
-	if !whole {
-		return e
-	}
-	for _, x := range covered {
-		if x.quirk {
-			e.known = fWideReg
-			return e
-		}
-	}
-	if !f.amd {
-		// a register whose successor in the space is denoted as well: the two are
-		// read as one range after merging
-		for _, x := range covered {
-			if den[x.off+int64(len(x.val))] {
-				e.known = fAdjacent
-				return e
-			}
-		}
-	}
 	return e
 }
 
